@@ -45,8 +45,10 @@ func genAction(t *rapid.T, c *Case, label string, pNone int) string {
 			return "reset" // the writer must survive its own transaction
 		}
 		return fmt.Sprintf("restart:%d", rapid.IntRange(0, c.NProc-1).Draw(t, label+"p"))
-	case 5, 6, 7:
+	case 5, 6:
 		return fmt.Sprintf("evict:%d", rapid.IntRange(0, 999).Draw(t, label+"n"))
+	case 7:
+		return fmt.Sprintf("l1evict:%d", rapid.IntRange(0, c.NProc-1).Draw(t, label+"p"))
 	default:
 		// around the 5 min (node, store info, value) and 10 min (registry) minimum durations, and past 1 h
 		return fmt.Sprintf("adv:%d", rapid.SampledFrom([]int{1, 240, 330, 660, 960, 3700, 90000}).Draw(t, label+"sec"))
